@@ -5,7 +5,7 @@
   1. MC_UnaryEigRules: on every enumerated operator tree (spectral catalog: leaves with exact eigendecompositions,
      Diagonal / Identity / ScalarMul, non-square leaves; Kronecker / KronSum / BlockDiag / Transpose / Adjoint / declarations /
      no_dispatch / scalar multiples) TLC decides SpecGInv, UnaryRuleSound, PowFracSound, PowKronDomain, PowIntSound,
-     PowIntComplete, ExpKronSumSound, EigRuleSound and prints, for ~60 unary calls and ~18 eig calls per tree, the rules fired
+     PowIntComplete, ExpKronSumSound, EigRuleSound and prints, for 38 unary calls and ~18 eig calls per tree, the rules fired
      in call order, the exception class, the class skeleton, the exact value (exact scalar functions) / the selected
      eigenvalues, and its verdict "this value is / is not the true one";
   2. MC_AutoChoice: on every (entry point, facts) combination TLC decides AutoTotal, AutoUnique, AutoContractSmall,
@@ -24,6 +24,7 @@
 Returns the same kind of dictionary as rulesfam.phase.
 Run:  cd /verif && PYTHONPATH=/repo:/verif /venv/bin/python -B -m harness.rulesfam2 quick|thorough"""
 import json
+import os
 import random
 import subprocess
 import sys
@@ -31,7 +32,9 @@ import time
 import warnings
 from concurrent.futures import ThreadPoolExecutor
 
-import numpy as np
+for _v in ("OMP_NUM_THREADS", "OPENBLAS_NUM_THREADS", "MKL_NUM_THREADS"):   # 16 forked replay workers: one BLAS thread each
+    os.environ.setdefault(_v, "1")                                          # (./check exports the same; effective when numpy
+import numpy as np  # noqa: E402                                            #  has not been imported before this module)
 
 from . import catalog, common, spectralfam, tla
 from . import rulesfam as rf
@@ -102,9 +105,8 @@ def leaves(seed):
 
 
 ALL_ACTS = {"Transpose", "Adjoint", "NoDispatch", "Annot", "Kronecker", "KronSum", "BlockDiag", "Product"}
-QUICK_SEEDS = ("E_spd13", "E_spd19", "E_psd02", "E_tri25", "E_rot", "E_herm14", "E_spd114", "E_cgen", "E_indneg", "T_low25",
-               "T_up", "G_dgneg", "G_dgc", "G_I2", "G_scn", "E_nd19", "E_sq4i", "G_dgm14", "G_dgm49r", "G_dgi",
-               "G_sc94", "N21", "R_sym0", "R_dg")
+QUICK_SEEDS = ("E_spd13", "E_psd02", "E_rot", "E_herm14", "E_spd114", "E_cgen", "E_indneg", "T_low25", "T_up", "G_dgneg", "G_I2",
+               "E_nd19", "E_sq4i", "G_dgm14", "G_dgm49r", "G_dgi", "G_sc94", "N21", "R_sym0", "R_dg")
 QUICK_OPS = ("E_spd13", "G_dgm14", "E_nd19", "G_sc2", "N12")
 
 
